@@ -105,6 +105,11 @@ def _setup(ex, case):
 
     def up(variant="intact"):
         from sim.world import SimCrash, HarnessError
+        if w.cs is None:
+            # (also for the implicit restart of the epilogue when the plan ends with the engine down)
+            ncur = sum(1 for t, rows in w.sd.items() if "_cursor_" in t and rows)
+            if ncur < 2 or variant in ("badcursor", "nocursor"):
+                ex.lost_cursor = True       # a side starts without a usable stored cursor: walk fallback applies
         try:
             return orig_up(variant)
         except (SimCrash, HarnessError):
